@@ -69,7 +69,10 @@ def tri2Oracle (A B C O D : V2 Rat) (max : Option Rat) (solid : Bool) (out : Out
   | .bad w => s!"fail {w}"
   | .miss =>
     if solid ∨ f0 > tp then
-      (if meets (triInterval hs O D (-tp)) max false then s!"fail none-but-segment-enters-triangle{sfx}" else "pass")
+      (if meets (triInterval hs O D (-tp)) max false then
+         -- origin on an edge up to rounding, ray going inward: see KNOWN_FINDINGS (`origin-on-edge`)
+         (if f0 ≥ -tp ∧ f0 ≤ tp then s!"fail none-but-segment-enters-triangle origin-on-edge" else s!"fail none-but-segment-enters-triangle{sfx}")
+       else "pass")
     else if f0 < -tp then
       match max with
       | none => s!"fail none-but-unbounded-ray-from-inside{sfx}"
@@ -88,10 +91,10 @@ def tri2Oracle (A B C O D : V2 Rat) (max : Option Rat) (solid : Bool) (out : Out
       else if f0 < -tp then
         (if solid then (if t = 0 then "pass" else "fail solid-inside-toi-nonzero")
          else if !onB then "fail exit-not-on-boundary" else if t ≤ 0 then "fail exit-at-zero-from-inside" else "pass")
-      -- origin on the boundary up to rounding (a tie the float orientation / parameter tests may decide either way: the
-      -- origin counts as outside for the `solid` test and as behind the edge for the edge cast): only "on the boundary" is
-      -- demanded, as for the other closed forms
-      else (if solid ∧ t = 0 then "pass" else if !onB then "fail hit-not-on-boundary" else "pass")
+      -- origin on the boundary up to rounding: the float orientation test may count it as outside while the edge cast counts
+      -- it as behind the edge (parameter −1e-17), so the edge the ray enters through is skipped (KNOWN_FINDINGS, `origin-on-edge`)
+      else (if solid ∧ t = 0 then "pass" else if !onB then "fail hit-not-on-boundary"
+            else if solid ∧ !first then "fail earlier-point-inside origin-on-edge" else "pass")
     if verdict != "pass" then verdict else
     if t = 0 ∧ solid ∧ f0 ≤ tp then "pass" else
     if !(FloatIO.isFinite nf.x && FloatIO.isFinite nf.y) then "fail nonfinite-normal" else
